@@ -525,7 +525,7 @@ Qed.
 Lemma run_cb_k w c : KI w -> KI (run_cb w c).
 Proof.
   intros H. unfold run_cb. destruct (wcrash w); auto. destruct c.
-  - apply resume_k; auto.
+  - destruct (_ <? _)%nat; [apply resume_k; auto|apply crashw_k; auto].
   - unfold KI; cbn [wk set]. simpl. apply check_kinv. exact H.
   - destruct (res_trig_get _ _) as [[k0 r0]|] eqn:E; auto with kdb. apply upd_node_k.
     unfold KI; cbn [wk set]; simpl. eapply res_trig_get_kinv; eauto.
